@@ -59,7 +59,7 @@ func reqSignature(desc, curve, req string) CallReq {
 		Check: func(t *Term) string {
 			return firstNonEmpty(
 				want("verification key", arg(t, 0), pubKeyFrom(curve, req+".RequestKey")),
-				want("digest", arg(t, 1), "hash<crypto/sha512.New384>("+signedMessage(req)+")"),
+				want("digest", arg(t, 1), "hash<sha384>("+signedMessage(req)+")"),
 				checkSigHalves(arg(t, 2), arg(t, 3), req+".Signature"),
 			)
 		},
